@@ -11,7 +11,7 @@ cleanup() { git -C /repo worktree remove --force $WT >/dev/null 2>&1; }
 trap cleanup EXIT
 if ! git -C $WT apply --3way "$D/patch.diff" >/tmp/try_seed.apply.$$ 2>&1; then echo "NOAPPLY $N"; exit 3; fi
 if ! (cd $WT && go build ./... >/tmp/try_seed.build.$$ 2>&1); then echo "NOBUILD $N"; exit 4; fi
-cd /verif
+cd ${VDIR:-/verif}
 OUT=/tmp/try_seed.$N.$P.out
 VERIF_REPO=$WT VERIF_NO_EVIDENCE=1 timeout 3000 bin/vcheck $P --tier $T > $OUT 2>&1
 RC=$?
